@@ -52,11 +52,13 @@ func (w *World) parseObjectPath(p wPath) objPath {
 	for _, e := range p.Trace {
 		switch {
 		case e.Kind == "fieldstore":
-			if len(e.Args) == 1 && e.Args[0].K == TPure && e.Args[0].Name == "append" {
+			// an append stored into a field of the Encoder (the definition table); a slice
+			// built with append and stored into the definition being assembled is not one
+			if len(e.Args) == 1 && e.Args[0].K == TPure && e.Args[0].Name == "append" && strings.HasSuffix(e.Extra[:strings.LastIndex(e.Extra, ".")], ".Encoder") {
 				op.appends = append(op.appends, e)
 			}
 			continue
-		case e.Kind == "loophead", e.Kind == "register", strings.HasPrefix(e.Kind, "encode:"):
+		case e.Kind == "loophead", e.Kind == "register", e.Kind == "typetest", strings.HasPrefix(e.Kind, "encode:"):
 			continue
 		}
 		bad := func(msg string) {
@@ -360,7 +362,7 @@ func (w *World) foundIndex(idx *Term) (bool, string) {
 		if !ok {
 			continue
 		}
-		if o, _, okf := w.fieldOfLoad(ia.X); !okf || o != "Encoder" {
+		if o, _, okf := w.fieldOfLoadVia(ia.X); !okf || o != "Encoder" {
 			continue
 		}
 		// the entry read through ia reaches a comparison
